@@ -38,7 +38,16 @@ type Check struct {
 	Fn      *ssa.Function
 }
 
+// Validator is a stub-free function run both natively and in the engine (translator validation).
+type Validator struct {
+	Props string
+	Name  string
+	Pkg   string
+	Fn    *ssa.Function
+}
+
 type Loaded struct {
+	Validators []*Validator
 	Prog     *interp.Program
 	Checks   []*Check
 	StubSets map[string]map[string]string // set -> from -> to
@@ -71,6 +80,7 @@ func parseDirectives(path, pkgPath string, l *Loaded) error {
 	sc := bufio.NewScanner(f)
 	sc.Buffer(make([]byte, 1<<20), 1<<20)
 	var pending *Check
+	var pendingV *Validator
 	for sc.Scan() {
 		line := strings.TrimSpace(sc.Text())
 		switch {
@@ -86,6 +96,8 @@ func parseDirectives(path, pkgPath string, l *Loaded) error {
 				l.StubSets[set] = map[string]string{}
 			}
 			l.StubSets[set][from] = pkgPath + "." + to
+		case strings.HasPrefix(line, "//verif:validate "):
+			pendingV = &Validator{Props: strings.TrimSpace(line[len("//verif:validate "):]), Pkg: pkgPath}
 		case strings.HasPrefix(line, "//verif:check "):
 			c := &Check{Pkg: pkgPath, Tier: "quick", File: path}
 			rest := line[len("//verif:check "):]
@@ -122,6 +134,14 @@ func parseDirectives(path, pkgPath string, l *Loaded) error {
 				}
 			}
 			pending = c
+		case strings.HasPrefix(line, "func ") && pendingV != nil:
+			name := line[len("func "):]
+			if i := strings.IndexByte(name, '('); i >= 0 {
+				name = name[:i]
+			}
+			pendingV.Name = name
+			l.Validators = append(l.Validators, pendingV)
+			pendingV = nil
 		case strings.HasPrefix(line, "func ") && pending != nil:
 			name := line[len("func "):]
 			if i := strings.IndexByte(name, '('); i >= 0 {
@@ -229,6 +249,13 @@ func Load() (*Loaded, error) {
 		}
 	}
 	l.Prog = p
+	for _, v := range l.Validators {
+		sp := l.pkgs[v.Pkg]
+		if sp == nil || sp.Func(v.Name) == nil {
+			return nil, fmt.Errorf("validator %s.%s not found", v.Pkg, v.Name)
+		}
+		v.Fn = sp.Func(v.Name)
+	}
 	for _, c := range l.Checks {
 		sp := l.pkgs[c.Pkg]
 		if sp == nil {
